@@ -1,34 +1,40 @@
 #!/usr/bin/env python3
 """writes props.json: for every property the Lean modules and theorem names audited by ./check"""
 import json
-P='Sx.Proofs.'; Q='Sx.Props.'
-reg={
- 'C01': ([P+m for m in ['FlatAdd','FlatInv','FlatFresh','FlatBasis8','FlatDelete2','FlatRestrict2','FlatSubdiv','FlatRelabel','FlatClosed','FlatDelete']]+[Q+'Relabel',Q+'Copy'],
+def P(*ms): return ['Sx.Proofs.' + m for m in ms]
+def Q(*ms): return ['Sx.Props.' + m for m in ms]
+reg = {
+ 'C01': (P('FlatAdd','FlatInv','FlatFresh','FlatBasis8','FlatDelete2','FlatRestrict2','FlatSubdiv','FlatRelabel','FlatClosed','FlatDelete') + Q('Relabel','Copy','Generators'),
    ['Flat.addSimplex_ok_inv','Flat.Inv.faces_are_facets','Flat.newSimplex_fresh','Flat.addSimplexWithBasis_spec','Flat.deleteSimplex_spec','Flat.restrict_spec','Flat.subdivide_spec','Flat.Inv.map','Flat.relabelSimplex_inv','Flat.Inv.filter_upclosed','Flat.foldl_forceDelete','Flat.Inv.subset_simplex',
-    'Flat.relabel_spec','Flat.relabelDisjointFrom_spec','Flat.copyNew_spec']),
- 'C02': ([P+m for m in ['FlatBasis7','FlatBasis8','FlatDelete2','FlatRestrict','FlatRestrict2','FlatSubdiv']],
+    'Flat.relabel_spec','Flat.relabelDisjointFrom_spec','Flat.copyNew_spec','Flat.genPoints_spec']),
+ 'C02': (P('FlatBasis7','FlatBasis8','FlatDelete2','FlatRestrict','FlatRestrict2','FlatSubdiv'),
    ['Flat.addWB_spec','Flat.addSimplexWithBasis_spec','Flat.deleteSimplex_spec','Flat.restrictRetain_spec','Flat.restrict_spec','Flat.coneLoop_spec','Flat.subdivide_spec']),
- 'C03': ([P+m for m in ['MatDecode','BdBd','FlatStar']]+[Q+'Views'],
+ 'C03': (P('MatDecode','BdBd','FlatStar') + Q('Views','Homology'),
    ['M2.decode_appendCol_old','M2.decode_appendCol_new','M2.decode_appendZeroRow','M2.decode_deleteCol','M2.decode_deleteRow','Flat.bd_bd_even','Flat.mem_cofaces',
-    'Flat.cofaces_inverse','Flat.basis_is_closure_points','Flat.bopMat_shape','Flat.bopMat_entry','Flat.bop_bop_zero','Flat.boundary_single','Flat.boundary_mod2','Flat.boundary_boundary_empty']),
- 'C04': ([P+m for m in ['FlatClosure','FlatStar','FlatBasis4','FlagAdd','Disjoint']]+[Q+'Views'],
+    'Flat.cofaces_inverse','Flat.basis_is_closure_points','Flat.bopMat_shape','Flat.bopMat_entry','Flat.bopMat_zero','Flat.bop_bop_zero','Flat.boundary_single','Flat.boundary_mod2','Flat.boundary_boundary_empty']),
+ 'C04': (P('FlatClosure','FlatStar','FlatBasis4','FlagAdd','Disjoint') + Q('Views'),
    ['Flat.closureOf_spec','Flat.partOfAux_spec','Flat.simplexWithBasis_spec','Flat.simplexWithFaces_some','Flat.simplexWithFaces_none','Disj.disjointL_iff',
     'Flat.closure_card','Flat.partOf_spec','Flat.closure_part_dual','Flat.disjointQ_spec','Flat.disjointQ_spec_pts','Flat.query_names_mem']),
- 'C05': ([Q+'C05'],['Flat.addS_atomic','Flat.addSimplex_rejects','Flat.addS_rejects_state',"Flat.addSimplexWithBasis'_guards","Flat.addSimplexWithBasis'_atomic",'Flat.relabel_atomic','Flat.relabel_rejects','Flat.copyInto_overlap','Flat.deleteSimplex_unknown','Flat.restrict_nonbasis','Flat.subdivide_rejects']),
- 'C06': ([P+m for m in ['RankBridge','MatProofs','Betti','Rank']],['M2.snf_rank','M2.snf_shape','M2.snf_counts','M2.euler_poincare','rank_rowop','rank_colop','rank_swap','rank_partialId']),
- 'C07': ([P+m for m in ['LabelsBridge','Labels','Labels2','RankBridge']],['M2.Z_core','M2.snf_rank','KerEq.rowop','KerEq.colpass','KerEq.colswap','KerEq.zero_col','cols_independent']),
- 'C08': ([P+'Heap'],['Heap.mutate_frame','Heap.dictSet_frame','Heap.copyCx_fresh']),
- 'C09': ([P+'Heap',Q+'Copy'],['Heap.copyCx_fresh','Heap.copy_independent','Heap.copy_dict_independent','Flat.copyNew_spec','Flat.copyNew_perm']),
- 'C10': ([P+'FlatCmp',Q+'Copy'],['Flat.isSub_iff',"Flat.le_refl'","Flat.le_trans'",'Flat.le_antisymm_eq','Flat.eq_iff','Flat.lt_iff','Flat.copy_eq','Flat.copy_le_not_lt','Flat.delete_lt','Flat.eq_symm','Flat.top_differs_ne']),
- 'C11': ([P+m for m in ['FlagMain','FlagGrow','FlagClique','FlagClosed','FlagClosed2','Cycle']],['Flat.flagComplex_spec','Flat.growLoop_spec','Flat.same_graph_same_family','Flat.complete_is_clique','Flat.closed_facets','Flat.facets_closed','cycle_lemma']),
- 'C12': ([P+'FlagMain'],['Flat.flagComplex_spec']),
- 'C13': ([P+'FiltCore'],['Flat.visible_inv','Flat.visible_mono']),
- 'C14': ([P+'FiltQuery'],['Flat.fContains_iff','Flat.fSimplices_eq','Flat.fCount_order','Flat.nextIndex_spec']),
- 'C15': ([P+'FlatRelabel',Q+'Relabel'],['Flat.Inv.map','Flat.relabelSimplex_inv','Flat.fold_relabel_eq_map','Flat.relabel_spec','Flat.relabel_spec_pos','Flat.relabel_ok_iff','Flat.relabel_rejected','Flat.relabel_chain_rejected','Flat.freshArrow_fuel','Flat.disjointRenaming_spec','Flat.relabelDisjointFrom_spec']),
- 'C16': ([P+'Compose',P+'Compose2',Q+'Copy'],['Flat.compose_union','Flat.compose_ok_iff','Flat.composeNew_eq','Flat.composeNew_spec']),
- 'C17': ([P+'Compose',Q+'Copy'],['Flat.compose_union','Flat.copyNew_spec','Flat.copy_eq']),
- 'C18': ([P+'FlatCount'],['Flat.full_simplex_counts','Flat.addWB_full']),
- 'C19': ([P+'Integrate',P+'Betti',P+'FlatRestrict2',Q+'Euler'],['sum_levels','M2.euler_poincare','Flat.restrict_spec','Flat.euler_def','Flat.levelSet_spec','Flat.levelSet_nested','Flat.integrate_levels','Flat.integrate_minsum','Flat.integrate_points','Flat.integrate_additive']),
- 'C20': ([P+'Embedding',P+'Lattice'],['Emb.assigned_wins','Emb.computed_once','Emb.wrong_dim_rejected','Emb.higher_order_rejected','Emb.clear_recomputes','Lattice.lattice_injective','Lattice.lattice_in_box']),
+ 'C05': (Q('C05'), ['Flat.addS_atomic','Flat.addSimplex_rejects','Flat.addS_rejects_state',"Flat.addSimplexWithBasis'_guards","Flat.addSimplexWithBasis'_atomic",'Flat.relabel_atomic','Flat.relabel_rejects','Flat.copyInto_overlap','Flat.deleteSimplex_unknown','Flat.restrict_nonbasis','Flat.subdivide_rejects']),
+ 'C06': (P('RankBridge','MatProofs','Betti','Rank') + Q('Homology'),
+   ['M2.snf_rank','M2.snf_shape','M2.snf_counts','M2.euler_poincare','rank_rowop','rank_colop','rank_swap','rank_partialId',
+    'Flat.bettiK_spec','Flat.bettiK_spec_inv','Flat.bettiK_above_max','Flat.euler_poincare_cx','Flat.bopMat_relabel_invariant','Flat.betti_relabel_invariant','Flat.snfK_spec']),
+ 'C07': (P('LabelsBridge','Labels','Labels2','RankBridge') + Q('Homology'),
+   ['M2.Z_core','M2.snf_rank','KerEq.rowop','KerEq.colpass','KerEq.colswap','KerEq.zero_col','cols_independent',
+    'Flat.snfK_spec','Flat.snfK_eq_mk','Flat.Zk_names','Flat.Zk_length','Flat.Zk_empty','Flat.Zk_cycle_even','Flat.Zk_boundary','Flat.Zk_independent','Flat.Zk_linearIndependent','Flat.Zk_spec']),
+ 'C08': (Q('Heap'), ['W.copyOp_fresh','W.deepcopyOp_fresh','W.flagOp_fresh','W.jsonOp_fresh','W.snapOp_fresh','W.composeOp_fresh','W.composeOp_atomic','W.mutator_frame','W.dictSetOp_frame']),
+ 'C09': (Q('Heap','Copy'), ['W.copyOp_fresh',"W.copyOp_fresh'",'W.copyOp_contents','W.deepcopyOp_contents','W.mutator_frame','W.independent_step','W.independent_list','W.independent','W.independent_obs','W.FreshSpec.independent','W.sync_inv','Flat.copyNew_spec','Flat.copyNew_perm']),
+ 'C10': (P('FlatCmp') + Q('Copy'), ['Flat.isSub_iff',"Flat.le_refl'","Flat.le_trans'",'Flat.le_antisymm_eq','Flat.eq_iff','Flat.lt_iff','Flat.copy_eq','Flat.copy_le_not_lt','Flat.delete_lt','Flat.eq_symm','Flat.top_differs_ne']),
+ 'C11': (P('FlagMain','FlagGrow','FlagClique','FlagClosed','FlagClosed2','Cycle') + Q('VR'),
+   ['Flat.flagComplex_spec','Flat.growLoop_spec','Flat.same_graph_same_family','Flat.complete_is_clique','Flat.closed_facets','Flat.facets_closed','cycle_lemma','Flat.copyNew_fact']),
+ 'C12': (P('FlagMain') + Q('VR'), ['Flat.flagComplex_spec','Flat.vietorisRips_spec','Flat.vr_mono','Flat.vr_none','Flat.vr_all']),
+ 'C13': (P('FiltCore') + Q('Filtration'), ['Flat.visible_inv','Flat.visible_mono','Flat.newFS_FInv','Flat.setIndex_FInv','Flat.addByFaces_FInv','Flat.addByFaces_FInv_contract','Flat.addByBasis_FInv','Flat.delete_FInv','Flat.visibleC_spec','Flat.indices_sorted','Flat.iterate_restores','Flat.FInv_iff_check']),
+ 'C14': (P('FiltQuery') + Q('Filtration'), ['Flat.fContains_iff','Flat.fSimplices_eq','Flat.fCount_order','Flat.nextIndex_spec','Flat.simplices_eq','Flat.visible_eq_contains','Flat.visible_same','Flat.count_eq','Flat.counts_eq','Flat.euler_eq','Flat.next_spec','Flat.prev_spec','Flat.next_not_key','Flat.toMin_spec','Flat.toMax_spec','Flat.maxOrder_not_scoped']),
+ 'C15': (P('FlatRelabel') + Q('Relabel'), ['Flat.Inv.map','Flat.relabelSimplex_inv','Flat.fold_relabel_eq_map','Flat.relabel_spec','Flat.relabel_spec_pos','Flat.relabel_ok_iff','Flat.relabel_rejected','Flat.relabel_chain_rejected','Flat.freshArrow_fuel','Flat.disjointRenaming_spec','Flat.relabelDisjointFrom_spec']),
+ 'C16': (P('Compose','Compose2') + Q('Copy'), ['Flat.compose_union','Flat.compose_ok_iff','Flat.composeNew_eq','Flat.composeNew_spec']),
+ 'C17': (P('Compose') + Q('Copy'), ['Flat.compose_union','Flat.copyNew_spec','Flat.copy_eq']),
+ 'C18': (P('FlatCount') + Q('Generators'), ['Flat.full_simplex_counts','Flat.addWB_full','Flat.genPoints_spec','Flat.kSimplex_spec','Flat.kSimplex_counts','Flat.kVoid_spec','Flat.kVoid_counts','Flat.kSkeleton_spec','Flat.kSkeleton_counts','Flat.ring_spec',"Flat.ring_counts'",'Flat.ring_small']),
+ 'C19': (P('Integrate','Betti','FlatRestrict2') + Q('Euler'), ['sum_levels','M2.euler_poincare','Flat.restrict_spec','Flat.euler_def','Flat.levelSet_spec','Flat.levelSet_nested','Flat.integrate_levels','Flat.integrate_minsum','Flat.integrate_points','Flat.integrate_additive']),
+ 'C20': (P('Embedding','Lattice'), ['Emb.assigned_wins','Emb.computed_once','Emb.wrong_dim_rejected','Emb.higher_order_rejected','Emb.clear_recomputes','Lattice.lattice_injective','Lattice.lattice_in_box']),
 }
-json.dump({k:dict(modules=v[0],theorems=v[1]) for k,v in reg.items()}, open('props.json','w'), indent=1)
+json.dump({k: dict(modules=v[0], theorems=v[1]) for k, v in reg.items()}, open('props.json', 'w'), indent=1)
